@@ -227,7 +227,7 @@ func checkTap(name string, c *fx.Conn) {
 
 // body: subscriber A subscribes, cancels and subscribes again; subscriber B
 // subscribes and stays; one emitter.
-func body(sameClient bool, fine bool) func() {
+func body(sameClient bool, fine bool, rejoin bool) func() {
 	return func() {
 		collected = nil
 		w := fx.Start(bus.Yes{})
@@ -243,6 +243,9 @@ func body(sameClient bool, fine bool) func() {
 		var ems []emission
 		wa := vrt.GoWorker("subscriber-A", func() {
 			a1 = subscribe("A1", pA, c1)
+			if !rejoin {
+				return // nobody ever cancels in this variant
+			}
 			a1.stop()
 			a2 = subscribe("A2", pA, c1)
 		})
@@ -478,10 +481,14 @@ func init() {
 		Doc: "three subscribers on three connections; the second one's connection is cut abruptly while the emitter sends tick(1), tick(2): the others get every event once", MustFlag: []string{"required-event"}})
 	reg.Register(&reg.Scenario{Property: "C13", Name: "three-subscribers-middle-leaves", Body: three, Quick: 1, Thorough: 3,
 		Doc: "three subscribers on three connections; the second cancels while the emitter sends tick(1), tick(2)", MustFlag: []string{"left-during-emission", "required-event"}})
-	reg.Register(&reg.Scenario{Property: "C13", Name: "different-connections", Body: body(false, false), Quick: 1, Thorough: 3,
+	reg.Register(&reg.Scenario{Property: "C13", Name: "different-connections", Body: body(false, false, true), Quick: 1, Thorough: 3,
 		Doc: "A: subscribe,cancel,subscribe || B: subscribe || emitter tick(1) tick(2) other(9) tick(3); A and B on different connections", MustFlag: []string{"required-event"}})
-	reg.Register(&reg.Scenario{Property: "C13", Name: "same-client", Body: body(true, false), Quick: 1, Thorough: 3,
+	reg.Register(&reg.Scenario{Property: "C13", Name: "same-client", Body: body(true, false, true), Quick: 1, Thorough: 3,
 		Doc: "same with A and B on two proxies of one client (shared registration)", MustFlag: []string{"required-event"}})
-	reg.Register(&reg.Scenario{Property: "C13", Name: "same-client-statement-level", Body: body(true, true), Quick: -1, Thorough: 2,
+	reg.Register(&reg.Scenario{Property: "C13", Name: "same-client-join", Body: body(true, false, false), Quick: 1, Thorough: 3,
+		Doc: "A: subscribe || B: subscribe (two proxies of one client, nobody registered before, nobody cancels) || emitter tick(1) tick(2) other(9) tick(3)", MustFlag: []string{"required-event"}})
+	reg.Register(&reg.Scenario{Property: "C13", Name: "same-client-join-statement-level", Body: body(true, true, false), Quick: 1, Thorough: 2,
+		Doc: "same-client-join with bus/signal.go, bus/proxy.go and bus/client.go interleaved at statement level"})
+	reg.Register(&reg.Scenario{Property: "C13", Name: "same-client-statement-level", Body: body(true, true, true), Quick: -1, Thorough: 2,
 		Doc: "same-client with bus/signal.go, bus/proxy.go and bus/client.go interleaved at statement level"})
 }
